@@ -61,6 +61,40 @@ def _repo_functions(mod: Any, ob: str, args: Dict[str, Any]) -> List[str]:
     return sorted(seen)
 
 
+def _native_probes(mod: Any, fn: Any, ob: str, out: Dict[str, Any]) -> None:
+    """Safety net for an INCONCLUSIVE symbolic analysis (tree not exhausted,
+    every path aborted inside CrossHair, ...): run the obligation natively on
+    a few concrete argument vectors (all-zero defaults + the harness's PROBES).
+    A probe can only turn 'inconclusive' into a counterexample (which is then
+    replayed in a fresh process like any other); it never discharges anything."""
+    import inspect
+
+    from vf import kf
+
+    sig = inspect.signature(fn)
+    zero: Dict[str, Any] = {}
+    for name, prm in sig.parameters.items():
+        ann = prm.annotation
+        zero[name] = False if ann in (bool, "bool") else ("" if ann in (str, "str") else 0)
+    vectors = [zero] + [dict(zero, **p) for p in getattr(mod, "PROBES", {}).get(ob, [])]
+    for vec in vectors:
+        try:
+            if not kf.gate_native(ob, vec):
+                continue
+            ok = fn(**vec)
+        except BaseException as e:  # noqa
+            if isinstance(e, (KeyboardInterrupt, SystemExit)):
+                raise
+            ok = False
+            out["message"] = (out.get("message", "") + f" | native probe raised {type(e).__name__}: {e}")[:900]
+        if not ok:
+            out["symbolic_verdict"] = out.get("verdict")
+            out["verdict"] = "refuted"
+            out["cex"] = vec
+            out["message"] = (out.get("message", "") + " | counterexample from native probe after inconclusive symbolic analysis")[:900]
+            return
+
+
 def run_item(harness_name: str, item: Dict[str, Any]) -> Dict[str, Any]:
     """Runs one work item (twin first, then the real analysis)."""
     from vf import engine, kf
@@ -82,12 +116,16 @@ def run_item(harness_name: str, item: Dict[str, Any]) -> Dict[str, Any]:
         out.update({"verdict": "vacuous", "paths": tw["paths"], "z3_queries": tw["z3_queries"],
                     "solver_s": tw["solver_s"], "wall_s": tw["wall_s"], "message": tw["message"][:500],
                     "oracle_hits": 0, "nontrivial": 0, "cex": None})
+        if kf.MODE[0] != "only":
+            _native_probes(mod, fn, ob, out)
         return out
     kf.HITS["oracle"] = kf.HITS["nontrivial"] = 0
     r = engine.run_obligation(fn, timeout=item.get("timeout", 60.0), per_path_timeout=item.get("path_timeout", 20.0))
     out.update(r)
     out["oracle_hits"] = kf.HITS["oracle"]
     out["nontrivial"] = kf.HITS["nontrivial"]
+    if out.get("verdict") not in ("confirmed", "refuted"):
+        _native_probes(mod, fn, ob, out)
     if item.get("want_functions") and tw["cex"] is not None:
         try:
             out["functions"] = _repo_functions(mod, ob, tw["cex"])
